@@ -49,7 +49,9 @@ def generate(rnd, tier, index=0):
         cfg["lp"] = gen.gen_lp(rnd, names=TREE_LPS)
         cfg["np"] = gen.gen_np(rnd, cfg["lp"][0], len(cfg["arms"]), name="TreeBandit")
     tree = bool(cfg["np"] and cfg["np"][0] == "TreeBandit")
-    flags = {"default_np": False, "default_lp": False, "share": rnd.random() < 0.5}
+    # share_query: every bandit of the process is handed the SAME ndarray object as query contexts (a caller evaluating
+    # several bandits on one pre-allocated test array)
+    flags = {"default_np": False, "default_lp": False, "share": rnd.random() < 0.5, "share_query": rnd.random() < 0.35}
     if cfg["np"] and rnd.random() < (0.7 if tree else 0.3):
         flags["default_np"] = True
         cfg["np"] = [cfg["np"][0], {}]
@@ -149,7 +151,7 @@ def _construct(cfg, flags, seed, objs=None):
     return MAB(list(cfg["arms"]), lp, np_, seed=seed, n_jobs=cfg.get("n_jobs", 1), backend=cfg.get("backend"))
 
 
-def _interfere(case, item, shared_objs, stats):
+def _interfere(case, item, shared_objs, stats, pool=None, next_q=None):
     cfg, flags = case["cfg"], case["flags"]
     rnd = random.Random(item["seed"])
     objs = shared_objs if flags.get("share") else None
@@ -165,6 +167,11 @@ def _interfere(case, item, shared_objs, stats):
             if "predict" in item["steps"]:
                 B.apply({"op": "predict", "Q": [rows[0][2], rows[-1][2]] if B.ctxl else None})
                 B.apply({"op": "expect", "Q": [rows[0][2]] if B.ctxl else None})
+                if pool is not None and next_q is not None and B.ctxl:
+                    # the other bandit is asked about the very array object that A is handed next
+                    B._pool = pool
+                    B.apply({"op": "predict", "Q": next_q}, container="reuse:ndarray")
+                    stats["interfere_shared_query"] = stats.get("interfere_shared_query", 0) + 1
             # the other bandit also warm-starts with the SAME arm features as A but another quantile
             for wop in [o for o in case["ops"] if o["op"] == "warm_start"][:2]:
                 B.apply(dict(wop, q=rnd.choice([q for q in (0.0, 0.5, 1.0) if q != wop["q"]])))
@@ -183,11 +190,13 @@ def run_A(case, interfere):
     by_at = {}
     for it in case["interf"]:
         by_at.setdefault(it["at"], []).append(it)
+    shareq = bool(flags.get("share_query"))
     for i, op in enumerate(case["ops"]):
         if interfere:
+            nq = next((o.get("Q") for o in case["ops"][i:] if o["op"] in ("predict", "expect") and o.get("Q")), None)
             for it in by_at.get(i, []):
-                _interfere(case, it, objs, stats)
-        r = A.apply(op)
+                _interfere(case, it, objs, stats, pool=A._pool if shareq else None, next_q=nq)
+        r = A.apply(op, container="reuse:ndarray" if (shareq and op["op"] in ("predict", "expect")) else "list")
         outs.append([r[0], kernel.canon(r[1])])
     if interfere:
         for it in by_at.get(len(case["ops"]), []):
@@ -202,6 +211,12 @@ def run_twins(case, skew):
     A2 = Session(cfg, mab=_construct(cfg, flags, cfg["seed"], objs))
     o1, o2 = [], []
     ops = case["ops"]
+    if flags.get("share_query"):
+        # both twins are handed the same query array objects
+        A2._pool = A1._pool
+        real1, real2 = A1.apply, A2.apply
+        A1.apply = lambda op: real1(op, container="reuse:ndarray" if op["op"] in ("predict", "expect") else "list")
+        A2.apply = lambda op: real2(op, container="reuse:ndarray" if op["op"] in ("predict", "expect") else "list")
     if skew == 0:
         for op in ops:
             r1, r2 = A1.apply(op), A2.apply(op)
